@@ -413,12 +413,15 @@ claim("C19",
       "SqliteWorkflowStore on a temporary file) over a complete enumeration of small operation sequences: (1) a state "
       "obtained from get_state is a snapshot - editing its top-level keys / fields leaves the store unchanged until "
       "set_state writes it back; (2) get / set by dotted path (intermediate dicts created as needed) and clear return "
-      "the values of a plain nested-dict model, for the in-memory and the SQLite store. Clause (1) failed on the "
-      "unchanged tree for the in-memory store over DictState and was repaired by fix 90804d2.",
+      "the values of a plain nested-dict model, for the in-memory and the SQLite store; (3) overwriting a value with an "
+      "equal-but-different JSON value (1 / true / 1.0, also nested) through set or edit_state stores the new value; (4) "
+      "set_state with a parent-typed state overwrites exactly the parent's fields, defaults included, and keeps the "
+      "child's own. Clause (1) failed on the unchanged tree for the in-memory store over DictState and was repaired by "
+      "fix 90804d2; (3) and (4) were added because two seeded changes were missed without them.",
       "Bound: prefixes of at most two sets before the snapshot; operation sequences of length <= 2 (3 in the thorough "
-      "tier) over five paths and four JSON values, sampled in the quick tier; list indices in paths, nested typed "
-      "models, parent-type merges of set_state and edit_state are outside it. The lock discipline of these classes "
-      "(lost updates) is C20.",
+      "tier) over five paths and four JSON values, sampled in the quick tier; a fixed list of seven value swaps at two "
+      "paths; one inherited model over 4 x 5 field settings; list indices in paths, nested typed models and longer "
+      "edit_state blocks are outside it. The lock discipline of these classes (lost updates) is C20.",
       category="exploration",
       technique="bounded stand-in for contract verification: run-time checked contract on the real classes over an "
                 "exhaustively enumerated finite domain of operation sequences (stated bound); labelled bounded, not "
